@@ -288,12 +288,14 @@ func (c *wsConnection) sendPing() error {
 	pingCtx, cancel := context.WithTimeout(c.ctx, c.writeTimeout)
 	defer cancel()
 
+	// record the timestamp before the write: a pong that is handled before Ping returns must not
+	// look older than the ping it answers (pongOverdue would close a healthy connection)
+	prev := c.lastPingSentAt.Swap(time.Now().UnixNano())
 	err := pinger.Ping(pingCtx, c.conn)
 	if err != nil {
+		c.lastPingSentAt.Store(prev)
 		return err
 	}
-
-	c.lastPingSentAt.Store(time.Now().UnixNano())
 	return nil
 }
 
